@@ -68,6 +68,8 @@ def oracle(case, out):
         t = op.split()
         live_before = {c: set(s) for c, s in g.live.items()}
         g.update(i, op, obs)
+        if g.clash:
+            break          # a duplicated `as=` label: connection identities are ambiguous from here on
         live_in = {c for c, s in g.live.items() if any(d == "listener" for _, d in s)}
         live_out = {c for c, s in g.live.items() if any(d == "dialer" for _, d in s)}
         if g.max_in is not None and len(live_in) > g.max_in:
